@@ -467,7 +467,9 @@ def run_fss(desc, ctx):
             nontrivial = False
             for key, vals in ra.items():
                 ctx.count("rows_compared")
-                if key in rb and not all(same_number(x, y) for x, y in zip(vals, rb[key])):
+                # (the skill score is computed in single precision as (unc - bs) / unc: absolute tolerance near zero skill)
+                if key in rb and not all(same_number(x, y) or (x.lower() != "nan" and y.lower() != "nan" and abs(float(x) - float(y)) < 2e-6)
+                                         for x, y in zip(vals, rb[key])):
                     ctx.violation("marked-differs-from-deleted|%s|fss" % field,
                                   "-m fss -r %s -x %s: field %s of input %d marked missing (%s, %s) gives row %s = %s, but with those rows "
                                   "deleted %s" % (thr, axis, field, victim, enc, mode, key, vals, rb[key]), case)
